@@ -8,13 +8,13 @@ LEVEL_TEXT = {
     "C01": ("model_checking", "Cut-and-resolve vs. Resolve.tla: molecules (catalogue + seeded random) are cut along every/random partitions into connected blocks, rendered with random SMILES renderings and base-graph numberings, resolved by the real resolver, and TLC validates the observation against the reference molecule under a checked witness (elements, charges, bond orders incl. 1.5, hydrogens = Chem!Need) together with every C02/C03/C09 clause.", "4.5, 5 C01"),
     "C02": ("model_checking", "Mapping fidelity vs. Resolve.tla: TLC enumerates every bounded base graph x 18 fragment libraries x both conventions (ResolveMC); every configuration is resolved through the three constructors and TLC checks C02_Records/Graph/Cover/Copy on every observation (templates derived in TLC from the fragment tokens by FragText!DenoteF).", "4.5, 5 C02"),
     "C03": ("model_checking", "Inter-fragment bonds vs. Resolve.tla on the ResolveMC universe (ambiguous libraries: unlabelled, homopolymers, several descriptors per atom, leftovers, both conventions): across-edge, count <= order (= order under the TLC-decided Dedicated predicate), compatibility, annotated order, descriptor-used-once.", "4.5, 5 C03"),
-    "C06": ("model_checking", "Layered strings: molecules cut into blocks and grouped into 1-3 intermediate levels; every resolution step is validated by TLC (coarse graph of step k+1 = fine graph of step k, C02/C03 clauses), the final molecule equals the reference as does the flattened string; ResolverAPI.tla enumerates call histories (three drivers/constructors) replayed and validated.", "5 C06, 3.4"),
+    "C06": ("model_checking", "Layered strings: molecules cut into blocks and grouped into 1-3 intermediate levels; every resolution step is validated by TLC (coarse graph of step k+1 = fine graph of step k, C02/C03 clauses), the final molecule equals the reference as does the flattened string; ResolverAPI.tla enumerates call histories (three drivers, four ways of constructing, unrelated library use in between) replayed and validated.", "5 C06, 3.4"),
     "C07": ("model_checking", "Graph writer vs. Writer.tla/CGGraph.tla: TLC model-checks RoundTrip for an abstract DFS writer over every connected graph <= 4 nodes, every DFS choice and every bond-order position (the design claim that a correct writer exists inside the reader's grammar); the real writer's output for those graphs, all atlas graphs <= 6 nodes with relabelings, and random graphs is tokenised and TLC checks grammar membership, CGGraph!Denote = G, and the read-back graph under a witness.", "4.7, 5 C07"),
     "C08": ("model_checking", "Fragment writer vs. FragText.tla: every bounded fragment token string is read, written and re-read; TLC compares FragText!DenoteF of the original and the re-written tokens (elements/names, charges, aromatic flags, bond orders, descriptor bags per atom) and the implementation's two graphs under a witness; complete multi-level strings are re-written from a resolver's inputs and resolved again, TLC checks the isomorphism of the final molecules.", "5 C08"),
-    "C09": ("model_checking", "Valence completeness as a per-atom invariant (Chem!Need over usual valences of the isoelectronic atom) evaluated by TLC on every all-atom observation of the ResolveMC universe, repository strings and cut configurations; hydrogens: degree one, inherit membership/name/weight.", "4.4, 5 C09"),
-    "C10": ("model_checking", "Shared atoms: the C01 corpus with a random subset of cut bonds replaced by '!' sharing; TLC checks the merged molecule against the reference, membership of shared atoms in exactly their blocks, nothing else merged, one atom fewer per pair.", "5 C10"),
-    "C11": ("model_checking", "Virtual nodes / zero-order edges: ResolveMC enumerates base graphs with the fragment-less node V at every position and '.' edges; TLC checks no bond on zero edges, empty virtual nodes, others own exactly their atoms, SyntaxError for a bonded fragment-less node, and equality with the twin configuration without them.", "5 C11"),
-    "C12": ("model_checking", "Canonical numbering clauses on every observation of the ResolveMC universe + ResolverAPI.tla call histories (3 constructors, 3 drivers, shared library objects, permuted definitions) replayed in fresh processes under several PYTHONHASHSEEDs and compared with a fresh-process reference digest by TLC.", "5 C12, 3.4"),
+    "C09": ("model_checking", "Valence completeness as a per-atom invariant (Chem!Need over usual valences of the isoelectronic atom) evaluated by TLC on every all-atom observation of the ResolveMC universe, repository strings and cut configurations; hydrogens: degree one, inherit membership/name/weight; sampler outputs (incl. fully capped molecules) are judged by the same clauses; the corpus is replayed after unrelated use of the hydrogen helpers in the same process.", "4.4, 5 C09"),
+    "C10": ("model_checking", "Shared atoms: the C01 corpus with a random subset of cut bonds replaced by '!' sharing; TLC checks the merged molecule against the reference, membership of shared atoms in exactly their blocks, nothing else merged, one atom fewer per pair; layered strings with sharing at several levels.", "5 C10"),
+    "C11": ("model_checking", "Virtual nodes / zero-order edges: ResolveMC enumerates base graphs with the fragment-less node V at every position and '.' edges; TLC checks no bond on zero edges, empty virtual nodes, others own exactly their atoms, SyntaxError for a bonded fragment-less node, and equality with the twin configuration without them (decorated configurations: twin read independently); layered strings with a virtual node at the top level.", "5 C11"),
+    "C12": ("model_checking", "Canonical numbering clauses on every observation of the ResolveMC universe + ResolverAPI.tla call histories (3 constructors, 3 drivers, shared library objects, permuted definitions) replayed in fresh processes under several PYTHONHASHSEEDs and compared with a fresh-process reference digest by TLC (histories include unrelated library use between resolver events); plus spec->code replay of every behaviour of GraphOps.tla (merge/bond/squash/sort/annotate/names) and FragLib.tla (read_fragments dictionaries) into the real helper functions.", "5 C12, 3.4, 11"),
     "C04": ("model_checking", "Graph reader vs. CGGraph.tla: TLC enumerates every string of the bounded grammar (the enabling conditions are the grammar), model-checks the denotation's design invariants, and every enumerated / simulated / repository string is read by the real read_cgsmiles and validated by TLC (exact equality of numbering, names, annotation values, edges and orders with CGGraph!Denote).", "4.1, 5 C04"),
     "C05": ("model_checking", "Multiplier shorthand vs. CGGraph!Expand: TLC enumerates every bounded string with multipliers and computes the longhand; the real reader reads both; TLC checks the isomorphism witness (exact numbering for node multipliers).", "4.1, 5 C05"),
     "C13": ("model_checking", "Fragment tokenizer vs. FragText.tla: TLC enumerates every bounded fragment token string (descriptors of every kind/label/order at every allowed position, annotations, branches, ring digits, two-letter elements; atomistic and coarse), model-checks that inserting descriptors is inert for text and graph, and TLC compares strip_bonding_descriptors' cleaned text, descriptor lists and annotations with FragText!Strip exactly.", "4.2, 5 C13"),
